@@ -113,6 +113,7 @@ DEFAULT_UNWIND_RULES = [
     (r"^std::ptr::drop_in_place::<.*(xexpr::XExpr|xtype::XType|xtype::XCompoundSpec|xvalue::XValue)", 1),
     (r"^<xexpr::XExpr<.*> as std::clone::Clone>::clone", 1),
     (r"^std::ptr::drop_glue::<std::io::Error>|^std::ptr::drop_glue::<runtime_violation::RuntimeViolation>", 1),
+    (r"^builtin::sequence::XSequence::<.*>::(len|get)$", 1),  # harness sequences are flat arrays / ranges
     (r"^memcmp$", 24),  # string comparisons of identifiers / permission ids (<= 23 bytes)
 ]
 
